@@ -407,17 +407,86 @@ Proof.
         intros k' s Hin Hk'. apply in_app_or in Hin. destruct Hin as [Hin|[Hin|[]]]; [apply (Hle' k' s Hin Hk')|inversion Hin; subst; lia].
 Qed.
 
+
+(* ---------- 5. several rules (processRules): the model judges every request as the reference automata do ---------- *)
+Definition Rst (st : state) (m : Z -> kstate) : Prop := forall k, shape_ok (proj st k) /\ abs (proj st k) = m k.
+Lemma rac_refines c st m k t : Rst st m ->
+  Rst (fst (record_and_check c st k t)) (fst (spec_rac c m k t)) /\
+  snd (record_and_check c st k t) = snd (spec_rac c m k t).
+Proof.
+  intros H. unfold record_and_check, spec_rac. destruct (k <? 0) eqn:Ek; [split; [exact H|reflexivity]|].
+  destruct (H k) as [Hs Ha]. destruct (step1_refines c (proj st k) t Hs) as [H1 [H2 H3]].
+  unfold proj in *. destruct (step1 c (fst st k, snd st k) t) as [ap d]. rewrite <- Ha.
+  destruct (spec_step c (abs (fst st k, snd st k)) t) as [s' d']. cbn [fst snd] in *. subst d'.
+  split; [|reflexivity]. intros k'. unfold proj, upd. cbn [fst snd]. destruct (k' =? k) eqn:E.
+  - split; [destruct ap; exact H1|]. destruct ap; exact H2.
+  - apply (H k').
+Qed.
+
+Section MultiSim.
+  Variables SA SB : Type.
+  Variable stepA : cfg -> SA -> Z -> Z -> SA * bool.
+  Variable stepB : cfg -> SB -> Z -> Z -> SB * bool.
+  Variable R : SA -> SB -> Prop.
+  Hypothesis Hstep : forall c a b k t, R a b ->
+    R (fst (stepA c a k t)) (fst (stepB c b k t)) /\ snd (stepA c a k t) = snd (stepB c b k t).
+  Definition RL (ra : list (mrule * SA)) (rb : list (mrule * SB)) : Prop :=
+    Forall2 (fun x y => fst x = fst y /\ R (snd x) (snd y)) ra rb.
+
+  Lemma process_rules_sim k t : forall ra rb, RL ra rb ->
+    RL (fst (process_rules SA stepA ra k t)) (fst (process_rules SB stepB rb k t)) /\
+    snd (process_rules SA stepA ra k t) = snd (process_rules SB stepB rb k t).
+  Proof.
+    induction ra as [|[r a] ra IH]; intros rb H; inversion H as [|x [r' b] l l' [Hr HR] Hl]; subst; [split; [constructor|reflexivity]|].
+    cbn [fst snd] in Hr, HR. subst r'. cbn [process_rules].
+    destruct (IH l' Hl) as [IH1 IH2].
+    destruct (m_match r); cbn [negb].
+    - destruct (Hstep (m_cfg r) a b k t HR) as [HR' Hd].
+      destruct (stepA (m_cfg r) a k t) as [a' d]. destruct (stepB (m_cfg r) b k t) as [b' d']. cbn [fst snd] in HR', Hd. subst d'.
+      destruct (d && (m_cmd r =? 0)); [split; [constructor; [split; [reflexivity|exact HR']|exact Hl]|reflexivity]|].
+      destruct (d && (m_cmd r =? 1)); [split; [constructor; [split; [reflexivity|exact HR']|exact Hl]|reflexivity]|].
+      destruct (process_rules SA stepA ra k t) as [ra' [[ret c] p]]. destruct (process_rules SB stepB l' k t) as [rb' [[ret' c'] p']].
+      cbn [fst snd] in *. inversion IH2; subst. split; [constructor; [split; [reflexivity|exact HR']|exact IH1]|reflexivity].
+    - destruct (process_rules SA stepA ra k t) as [ra' [[ret c] p]]. destruct (process_rules SB stepB l' k t) as [rb' [[ret' c'] p']].
+      cbn [fst snd] in *. inversion IH2; subst. split; [constructor; [split; [reflexivity|exact HR]|exact IH1]|reflexivity].
+  Qed.
+
+  Lemma run_multi_sim : forall ops ga gb pa pb, RL ga gb -> RL pa pb ->
+    run_multi SA stepA ga pa ops = run_multi SB stepB gb pb ops.
+  Proof.
+    induction ops as [|[k t] r IH]; intros ga gb pa pb Hg Hp; [reflexivity|]. cbn [run_multi]. unfold process_all.
+    destruct (process_rules_sim k t ga gb Hg) as [Hg1 Hg2]. destruct (process_rules_sim k t pa pb Hp) as [Hp1 Hp2].
+    destruct (process_rules SA stepA ga k t) as [ga' [[ret c] p]]. destruct (process_rules SB stepB gb k t) as [gb' [[ret' c'] p']].
+    cbn [fst snd] in *. inversion Hg2; subst. destruct (ret' =? 0).
+    - destruct (process_rules SA stepA pa k t) as [pa' [[ret2 c2] p2]]. destruct (process_rules SB stepB pb k t) as [pb' [[ret2' c2'] p2']].
+      cbn [fst snd] in *. inversion Hp2; subst. f_equal. apply IH; assumption.
+    - f_equal. apply IH; assumption.
+  Qed.
+End MultiSim.
+
+Lemma with_state_RL rs : RL state (Z -> kstate) Rst (with_state empty_state rs) (with_state (fun _ => k0) rs).
+Proof.
+  unfold with_state, RL. induction rs as [|r rs IH]; [constructor|]. cbn [map]. constructor; [|exact IH].
+  split; [reflexivity|]. intros k. split; [exact I|reflexivity].
+Qed.
+Theorem multi_is_reference : forall x, run_minp x = spec_minp x.
+Proof.
+  intros x. unfold run_minp, spec_minp.
+  apply (run_multi_sim state (Z -> kstate) record_and_check spec_rac Rst rac_refines); apply with_state_RL.
+Qed.
+
 (* central theorem.  Well-formed: the input decodes, and either no dictionary can overflow (distinct keys <= both sizes:
    the reference automaton decides), or period >= 0 and the request times are non-decreasing (LRU eviction possible:
    every denial must be justified); no reload changes period/stay/threshold *)
 Definition wf_C53 (i : val) : bool :=
   match dec_C53 i with
   | Some x => stable (in_ops x) && (no_evict x || ((0 <=? c_period (in_cfg x)) && sorted_all (in_ops x)))
-  | None => false
+  | None => match dec_multi i with Some _ => true | None => false end       (* several rules: every decodable input *)
   end.
 Theorem prop_C53_of_model : forall i, wf_C53 i = true -> kf_C53 i = 0 -> prop_C53 i (run_C53 i) = true.
 Proof.
-  intros i Hwf _. unfold wf_C53 in Hwf. unfold prop_C53, run_C53. destruct (dec_C53 i) as [x|]; [|discriminate].
+  intros i Hwf _. unfold wf_C53 in Hwf. unfold prop_C53, run_C53. destruct (dec_C53 i) as [x|];
+    [|destruct (dec_multi i) as [x|]; [|discriminate]; rewrite multi_is_reference; apply val_eqb_refl].
   rewrite bools_of_vbool. unfold run_inp. apply andb_true_iff in Hwf. destruct Hwf as [Hstab Hwf]. rewrite Hstab.
   cbn [negb]. rewrite andb_true_r. destruct (no_evict x) eqn:Ene.
   - rewrite (run_refines (in_cfg x) (in_ops x) empty_state (fun _ => k0)).
